@@ -83,6 +83,7 @@ type FnCtx struct {
 	dryBack   []*State
 	region    map[*ssa.BasicBlock]bool
 
+	ghostVars  map[string]GhostVar
 	modTargets []modTarget // evaluated modifies clause (unit only)
 	modAll     bool
 }
@@ -121,7 +122,7 @@ func newFnCtx(vc *VC, fn *ssa.Function, parent *FnCtx) *FnCtx {
 		loops: map[*ssa.BasicBlock]*loopInfo{}, loopOrd: map[*ssa.BasicBlock]int{},
 		callOrd: map[ssa.Instruction]int{}, callName: map[ssa.Instruction]string{}, retOrd: map[ssa.Instruction]int{},
 		deferAt: map[*ssa.Defer]Term{}, dbg: map[string][]*ssa.DebugRef{},
-		entryEnv: map[string]SV{}, ghostEnv: map[string]SV{}, rangeMap: map[*ssa.Range]types.Type{}}
+		entryEnv: map[string]SV{}, ghostEnv: map[string]SV{}, ghostVars: map[string]GhostVar{}, rangeMap: map[*ssa.Range]types.Type{}}
 	if parent != nil {
 		fc.depth = parent.depth + 1
 	}
